@@ -161,6 +161,29 @@ def rotamer_is_arbitrary(parent):
     return True
 
 
+def ambiguous_cterm(o):
+    """a terminal oxygen bonded to more than one carbon: CtermGroup.setup_atoms takes `the_carbons[0]`, whichever the bond list
+    happens to put first - the precondition of finding D10"""
+    out = set()
+    for c, conf in o.mol.conformations.items():
+        for a in conf.atoms:
+            if a.terminal == 'C-' and len(a.get_bonded_elements('C')) > 1:
+                out.add((a.res_num, a.chain_id))
+    return out
+
+
+def d10_explains(diffs, o):
+    """every difference involves a C-terminus whose defining carbon is ambiguous (its own records, or determinants towards it)"""
+    amb = ambiguous_cterm(o)
+    if not amb or not diffs:
+        return False
+    import re
+    for x in diffs:
+        if not any(re.search(r"(^|[^0-9])%d([^0-9]|$)" % num, x) for num, ch in amb):
+            return False
+    return True
+
+
 def frame_dependent_hydrogens(o):
     """hydrogens whose construction uses Vector.orthogonal(): the parent has a single neighbour that defines no plane"""
     n = 0
@@ -228,13 +251,17 @@ def run(ctx):
                 hbad.append((name, ["error %r" % (o.error,)], pdbgen.text(ml), text))
                 continue
             if k >= nmot:
-                # under a pure grid translation every hydrogen the program builds moves with the structure (up to the rounding)
+                # under a pure grid translation every hydrogen the program builds moves with the structure (0.03 A: roundings of
+                # chained constructions add up to about 0.005 A, and where overlapping fragments give a planar centre a fourth
+                # neighbour the plane is taken from whichever two the bond list puts first, a shift of about 0.01 A)
                 # (compared as sets per residue: which of two equivalent hydrogens is built first, and so their names, follows
                 # the order of the bond lists)
                 def hp(ob):
                     out = {}
                     for a in ob.mol.conformations[ob.mol.conformation_names[0]].atoms:
-                        if a.element == 'H':
+                        # amino-acid residues only: C04 excludes hetero groups from the claims about constructed hydrogens (which
+                        # of two equivalent ligand oxygens is protonated follows the order of the bond lists)
+                        if a.element == 'H' and a.type == 'atom':
                             out.setdefault(observe.atom_key(a)[:4], []).append((a.x, a.y, a.z))
                     return out
                 ha, hb = hp(base), hp(o)
@@ -244,7 +271,7 @@ def run(ctx):
                 else:
                     for key, pas in ha.items():
                         for pa in pas:
-                            if not any(all(abs(pb[i] - t[i] - pa[i]) <= 0.0021 for i in range(3)) for pb in hb[key]):
+                            if not any(all(abs(pb[i] - t[i] - pa[i]) <= 0.03 for i in range(3)) for pb in hb[key]):
                                 d.append("hydrogen of %r at %r has no counterpart after a translation by %r: %r" % (key, pa, t, hb[key][:4]))
                 if d:
                     fbad.append((name, d[:3], pdbgen.text(ml), text))
@@ -261,7 +288,10 @@ def run(ctx):
                 ctx.count("pKa comparison skipped: frame-dependent hydrogen constructions (chain breaks / hetero groups)")
             elif not hetero or all(l.startswith("ATOM") or not pdbgen.is_atom(l) for l in lines):
                 d = cmp_full(bf, full_obs(o), tol=0.02)
-                if d:
+                if d and d10_explains(d, base) and "D10:cterm-carbon-choice-depends-on-bond-order" in ctx.known:
+                    hbad_known += 1
+                    ctx.violate("D10:cterm-carbon-choice-depends-on-bond-order", "%s moved (constructed hydrogens): %s" % (name, "; ".join(d[:2])), dict(pdb=pdbgen.text(ml), original=text, diffs=d[:4]))
+                elif d:
                     fbad.append((name, d[:3], pdbgen.text(ml), text))
         # keep-protons: supply the program's own hydrogens, then move
         if not hetero and len(base.mol.conformation_names) == 1:
@@ -273,7 +303,10 @@ def run(ctx):
                 ctx.case(key=(name, "keep", tuple(map(tuple, m)), tuple(t)))
                 ctx.count("keep-protons motions")
                 d = ["error %r" % (o2.error,)] if o2.error else cmp_full(full_obs(b2), full_obs(o2), tol=1e-9)
-                if d:
+                if d and d10_explains(d, b2) and "D10:cterm-carbon-choice-depends-on-bond-order" in ctx.known:
+                    hbad_known += 1
+                    ctx.violate("D10:cterm-carbon-choice-depends-on-bond-order", "%s with supplied hydrogens, moved: %s" % (name, "; ".join(d[:2])), dict(pdb=pdbgen.text(ml), original=pdbgen.text(hl), diffs=d[:4]))
+                elif d:
                     kbad.append((name, d[:3], pdbgen.text(ml), pdbgen.text(hl)))
     ctx.coverage["known_finding_instances"] = hbad_known
     for b in hbad[:2]:
